@@ -1,5 +1,6 @@
 import LenaModel.Model.C16
 import LenaModel.Lemmas.C16
+import LenaModel.Model.C16Spec
 /-! # C16 — the accounting invariant of `fill`/`request`
 
 Whatever the history of `fill` and `request` calls, the values filled so far are cut into
@@ -9,15 +10,6 @@ in `_buffer_in`.  `request` is analysed as its four consecutive `if` statements.
 
 namespace Lena.C16
 variable {σ α β : Type}
-
-/-- fill the element with the values of each block in turn; after each block consume `request`
-and reset iff `rst` -/
-def emitAll (e : El σ α β) (rst : Bool) : σ → List (List α) → List β × σ
-  | s, [] => ([], s)
-  | s, b :: bs =>
-    let r := e.req (b.foldl e.fill s)
-    let q := emitAll e rst (if rst then e.reset r.2 else r.2) bs
-    (r.1 ++ q.1, q.2)
 
 theorem emitAll_append (e : El σ α β) (rst : Bool) (s : σ) (a b : List (List α)) :
     emitAll e rst s (a ++ b) =
